@@ -1244,9 +1244,10 @@ impl Function {
         lists_rfls(locations@, *self, sel_bq(*self, bs, it.index@, 0)),
 //@ before 0 `let instructions = block.instructions();`
     let ghost n = it.index@;
-    proof { assert(block == bs[n]); }
-//@ before 0 `locations.push(RefFunctionLocation::EmptyBlock(block));`
-    proof { lemma_locs_empty_block(*self, bs, n, locations@); }
+    proof {
+        assert(block == bs[n]);
+        if block.instructions@.len() == 0 { lemma_locs_empty_block(*self, bs, n, locations@); }
+    }
 //@ loop 1
     invariant
         self.function_wf(), 0 <= n < bs.len(), block == bs[n], bs == it.seq(), n == it.index@,
